@@ -115,7 +115,9 @@ func runCase(c lcase, rep *batch.Report) batch.CaseResult {
 		return res
 	}
 	// key alphabet with shared prefixes and keys that are prefixes of each other
-	stems := []string{"a", "ab", "abc", "abd", "b", "b/", "b/x", "b/xy", "zz", "a/1", "a/12", "é", "éa", "a\xff", "a\xff\xff", "\xff"}
+	stems := []string{"a", "ab", "abc", "abd", "b", "b/", "b/x", "b/xy", "zz", "a/1", "a/12", "é", "éa", "a\xff", "a\xff\xff", "\xff",
+		// upper / lower case twins and characters that are wildcards or escapes in pattern languages (SQL LIKE / GLOB, regexp, shell)
+		"A", "Ab", "AB", "B/x", "a_", "a%", "_", "%", "a_c", "a%c", "a*", "a?c", "a.c", "a\\", "a'", "a\x00b", "[ab]"}
 	keys := []string{}
 	for len(keys) < c.Keys {
 		k := stems[rng.Intn(len(stems))]
@@ -216,7 +218,7 @@ func runCase(c lcase, rep *batch.Report) batch.CaseResult {
 		sort.Strings(out)
 		return out
 	}
-	prefixes := []string{"", "a", "ab", "abc", "b", "b/", "b/x", "z", "zz", "zzz", "é", "q", "a/1"}
+	prefixes := []string{"", "a", "ab", "abc", "b", "b/", "b/x", "z", "zz", "zzz", "é", "q", "a/1", "A", "B/", "a_", "a%", "_", "%", "a.", "a*", "a?", "a\x00", "[ab]", "a\\"}
 	sigs := map[string]bool{}
 	lists := 0
 	for _, m := range members {
@@ -281,7 +283,7 @@ func main() {
 	child.Register("cases", runCases)
 	child.Main()
 	r := ev.Start("C10", "exploration")
-	r.SetRule("stable rings of 1..8 real LocalNodes (memory/AOF/SQLite, direct and proxied wiring) filled through the DHT API by seeded Put/Delete/PrefixAppend/PrefixRemove/Acquire(1h)/Release sequences over key alphabets with shared prefixes, keys that are prefixes of each other and non-ASCII keys; ListKeys for 13 prefixes (incl. empty and non-matching) from EVERY node vs the model multiset of (key, kind); distinct+non-trivial = (ring size, backend, prefix, expected size bucket, number of kinds present)")
+	r.SetRule("stable rings of 1..8 real LocalNodes (memory/AOF/SQLite, direct and proxied wiring) filled through the DHT API by seeded Put/Delete/PrefixAppend/PrefixRemove/Acquire(1h)/Release sequences over key alphabets with shared prefixes, keys that are prefixes of each other, non-ASCII keys, upper/lower-case twins and keys containing _ % * ? . [ ] \\ ' and NUL; ListKeys for 25 prefixes (incl. empty, non-matching, other-case twins of stored keys and prefixes made of pattern-language wildcards / escapes) from EVERY node vs the model multiset of (key, kind); distinct+non-trivial = (ring size, backend, prefix, expected size bucket, number of kinds present)")
 	r.Assume("empty simple values are never written (whether a key holding only an empty value is listed differs between backends and is not specified)")
 	rng := r.Rand("cases")
 	n := r.Pick(60, 600)
